@@ -103,6 +103,9 @@ func (c07) RunCase(c *fw.Ctx, rng *fw.RNG, batch, i int) {
 	if strings.Contains(desc, "R(") {
 		c.Count("selectors_with_recursion", 1)
 	}
+	if strings.Count(desc, "@") >= 2 {
+		c.Count("selectors_with_two_edges", 1)
+	}
 	if strings.Contains(desc, ".[") {
 		c.Count("selectors_with_subset", 1)
 	}
